@@ -8,6 +8,9 @@ import Proofs.DasSrc
 import Proofs.DasNumber
 import Proofs.DasSplit
 import Proofs.DasExpect
+import Proofs.DasNested
+import Proofs.DasCanonGuard
+import Proofs.DasMixed
 /-!
   C08 — attributes survive the DAS.  Model: `PydapModel/DasText.lean` (follows parsers/das.py and
   responses/das.py *after* the three fixes: `float()` under Float32/Float64; size-0 values skipped everywhere;
@@ -32,9 +35,11 @@ import Proofs.DasExpect
       (the id path is `var.id.split(".")`), `C08_expected_var` / `C08_expected_global` (the outcome read as lookups).
       True by construction of the model, hence carried by the correspondence only: `C08_history_roundtrip`,
       `C08_attach_total`, `C08_memo_*`.
-  Not ∀-theorems (see design_notes/C08.md for the precise reasons): nested foreign texts in general position
-  (`C08_foreign` needs the text to denote exactly `dsDict ds`), whole-tree texts mixing flat and nested containers
-  for one subtree (the single visit is `C08_placement_both`), white space before `,`/`;` after a number token (its value
+    * round 7b: `C08_foreign_nested` / `_nested_text` / `_nested_pure` / `C08_nested_lookup` / `C08_foreign_nested_refuted`
+      (nested foreign style in GENERAL position: any order, any subset, strangers anywhere), `C08_foreign_mixed` / `_mixed_text`
+      / `_mixed_total` / `C08_mixed_lookup` (flat and nested containers mixed over a whole tree; `_total`: no guard on the dataset's name), `C08_ids_once` (every id exactly once),
+      `C08_roundtrip_canon_ds` (normal-form round trip with guards on the dataset itself).
+  Not ∀-theorems (see design_notes/C08.md for the precise reasons): white space before `,`/`;` after a number token (its value
   is Python's `literal_eval`), parser error outcomes.
 -/
 namespace Pydap.C08
@@ -645,6 +650,203 @@ example : (["s".toList, "a".toList], sortKeys [("l".toList, AVal.list [.num "1".
     (C08_expected_var _ _ (List.Mem.head _)).1
 example : (["g".toList, "arr".toList], []) ∈ expectVars exDs.children :=
   (C08_expected_var exDs.children _ (List.Mem.tail _ (List.Mem.head _))).2.2 rfl _ (List.Mem.head _)
+
+/-! ### round 7b: nested foreign style in GENERAL POSITION; exactly-once -/
+
+/-- **nested style, whole tree, any parsed dict**: containers in any order, for any subset of the variables at any depth
+    (Grid members included), NC_GLOBAL/DODS_EXTRA before or after the variables, strangers (containers or plain entries)
+    anywhere at any level.  Every variable holds exactly the entries of the container its nested path spells in the text —
+    minus the containers its own children take — or nothing (with its whole subtree) when there is no such container
+    (`heldVars`, read as lookups by `C08_nested_lookup`); what is left at the top level (`stripKids`: everything except the
+    containers the top-level variables took) becomes global on top of the merged dict-valued NC_GLOBAL/DODS_EXTRA.
+    Guards, exactly: sibling names distinct at every level (Python's containers enforce it); no CONTAINER under the dotted id
+    of a variable below the top level (`hflat`: otherwise that variable also takes the flat one — necessary, see
+    `C08_foreign_nested_refuted`; the single visit is `C08_placement_both`); no leftover container named like the dataset. -/
+theorem C08_foreign_nested (name : Text) (cs : List Var) (A : Dict)
+    (hd : VarsDistinct cs) (hn : (cs.map Var.name).Nodup)
+    (hflat : ∀ p ∈ visitIds cs, p.length ≠ 1 → ∀ e, dget (A.filter notGlobal) (dotted p) ≠ some (.dict e))
+    (hself : ∀ e, dget (stripKids (A.filter notGlobal) cs) name ≠ some (.dict e)) :
+    addAttributes name cs A = .ok (nestedExpected cs A) :=
+  nested_attach name cs A hd hn hflat hself
+
+/-- **nested style, from the text** (parse + attach composed): any foreign-layout text (`C08_foreign_layout`) -/
+theorem C08_foreign_nested_text (name : Text) (cs : List Var) (kw w0 w1 : Text) (its : List FItem) (trail : Text)
+    (hkw : lower kw = "attributes".toList) (h0 : Ws w0) (h1 : Ws w1) (hok : FItemsOk its)
+    (hd : VarsDistinct cs) (hn : (cs.map Var.name).Nodup)
+    (hflat : ∀ p ∈ visitIds cs, p.length ≠ 1 →
+      ∀ e, dget ((denoteItems [] (eraseItems its)).filter notGlobal) (dotted p) ≠ some (.dict e))
+    (hself : ∀ e, dget (stripKids ((denoteItems [] (eraseItems its)).filter notGlobal) cs) name ≠ some (.dict e)) :
+    (dasParse (ftext kw w0 w1 its trail)).toOption.map (addAttributes name cs)
+      = some (.ok (nestedExpected cs (denoteItems [] (eraseItems its)))) := by
+  rw [fparse kw w0 w1 its trail hkw h0 h1 hok]
+  simp [Except.toOption, nested_attach name cs _ hd hn hflat hself]
+
+/-- **nested style, purely nested text**: when no top-level name of the DAS contains a dot the flat guard holds by itself —
+    only "sibling names distinct" and "no leftover container named like the dataset" remain. -/
+theorem C08_foreign_nested_pure (name : Text) (cs : List Var) (A : Dict)
+    (hd : VarsDistinct cs) (hn : (cs.map Var.name).Nodup) (hdot : NoDot (keys (A.filter notGlobal)))
+    (hself : ∀ e, dget (stripKids (A.filter notGlobal) cs) name ≠ some (.dict e)) :
+    addAttributes name cs A = .ok (nestedExpected cs A) :=
+  nested_attach name cs A hd hn (hflat_of_nodot cs _ hdot) hself
+
+example : NoDot (keys (exNestedA.filter notGlobal)) := by unfold NoDot; decide
+
+/-- **the outcome of the nested theorem, as lookups** (N = the container of the parent as the text wrote it; at the top
+    level the parsed dict without the dict-valued NC_GLOBAL/DODS_EXTRA): a variable with a container under its name holds
+    that container minus its children's containers, and its children are looked up inside it; a variable without one
+    holds nothing, nor does anything below it; in what is left (`stripKids`: the globals at the top level, the variable's
+    own attributes below) a name that is no child keeps its entry, a plain entry keeps its place even when named like a
+    child, and the container a child took is gone. -/
+theorem C08_nested_lookup (N : Dict) (cs : List Var) :
+    (∀ v ∈ cs, ∀ E, dget N v.name = some (.dict E) →
+        ([v.name], dupdate [] (stripKids E v.children)) ∈ heldVars N cs
+        ∧ ∀ q d, (q, d) ∈ heldVars E v.children → (v.name :: q, d) ∈ heldVars N cs)
+    ∧ (∀ v ∈ cs, (∀ E, dget N v.name ≠ some (.dict E)) →
+        ([v.name], []) ∈ heldVars N cs ∧ ∀ p ∈ walkVars [] v.children, (v.name :: p, []) ∈ heldVars N cs)
+    ∧ (∀ k, k ∉ cs.map Var.name → dget (stripKids N cs) k = dget N k)
+    ∧ (∀ k, (∀ E, dget N k ≠ some (.dict E)) → dget (stripKids N cs) k = dget N k)
+    ∧ (∀ k E, k ∈ cs.map Var.name → dget N k = some (.dict E) → dget (stripKids N cs) k = none) :=
+  ⟨fun v hv E h => held_some N cs v hv E h, fun v hv h => held_none N cs v hv h,
+   fun k h => strip_other N cs k h, fun k h => strip_plain N cs k h, fun k E hk h => strip_child N cs k E hk h⟩
+
+/-- **exactly once**: whatever the parsed dict, `add_attributes` reports every variable id exactly once, in visiting
+    order — so "found on the same variables" is a function of the id; for a served dataset the id texts of
+    `expected ds` are pairwise distinct (from distinct, dot-free sibling names), and the nested outcome lists the same ids. -/
+theorem C08_ids_once :
+    (∀ name cs A r, addAttributes name cs A = .ok r → r.vars.map (·.1) = visitIds cs)
+    ∧ (∀ ds, DsG ds → (expected ds).vars.map (·.1) = visitIds ds.children)
+    ∧ (∀ ds, DsG ds → VarsNames ds.children → ((expected ds).vars.map fun pd => dotted pd.1).Nodup)
+    ∧ (∀ N cs, VarsDistinct cs → (cs.map Var.name).Nodup → (heldVars N cs).map (·.1) = visitIds cs) :=
+  ⟨addAttributes_ids, expected_ids, expected_ids_nodup, heldVars_ids⟩
+
+-- non-vacuity of `C08_foreign_nested`: the guards hold on `exNestedA`, and the outcome is the one the text spells
+example : addAttributes "d".toList exTmpl exNestedA = .ok (nestedExpected exTmpl exNestedA) :=
+  C08_foreign_nested _ _ _ exTmpl_distinct.1 exTmpl_distinct.2 exNestedA_flat
+    (by intro e he
+        have : dget (stripKids (exNestedA.filter notGlobal) exTmpl) "d".toList = none := rfl
+        rw [this] at he; cases he)
+example : nestedExpected exTmpl exNestedA =
+    ⟨[("n".toList, .sc (.num "3".toList false)),
+      ("HDF_GLOBAL".toList, .dict [("k".toList, .sc (.str "v".toList))]),
+      ("title".toList, .sc (.str "hi".toList))],
+     [(["b".toList], [("u".toList, .sc (.num "1".toList false))]),
+      (["s".toList, "a".toList], [("x".toList, .sc (.num "1.0".toList true))]),
+      (["s".toList], [("zz".toList, .dict [("w".toList, .sc (.str "q".toList))]), ("t".toList, .sc (.num "7".toList false))])]⟩ := by
+  rfl
+
+set_option maxRecDepth 200000 in
+/-- from a text in another server's order: `b` before `s`, NC_GLOBAL between the variables, a stranger inside `s` -/
+example : (dasParse "Attributes{b {Int16 u 1;} NC_GLOBAL {Int32 n 3;} s {zz {} a {Byte x 1;}}}".toList).toOption.map
+      (addAttributes "d".toList exTmpl) = some (.ok
+    ⟨[("n".toList, .sc (.num "3".toList false))],
+     [(["b".toList], [("u".toList, .sc (.num "1".toList false))]),
+      (["s".toList, "a".toList], [("x".toList, .sc (.num "1".toList false))]),
+      (["s".toList], [("zz".toList, .dict [])])]⟩) := rfl
+
+/-- **the flat guard of the nested theorem is necessary**: with a container `s.a { … }` next to `s { a { … } }` the
+    variable `s.a` takes both, so the outcome is not the nested one. -/
+theorem C08_foreign_nested_refuted :
+    ¬ (∀ (name : Text) (cs : List Var) (A : Dict), VarsDistinct cs → (cs.map Var.name).Nodup →
+        (∀ e, dget (stripKids (A.filter notGlobal) cs) name ≠ some (.dict e)) →
+        addAttributes name cs A = .ok (nestedExpected cs A)) := by
+  intro h
+  have h1 := h "d".toList exTmpl
+    [("s".toList, .dict [("a".toList, .dict [("x".toList, .sc (.num "1".toList false))])]),
+     ("s.a".toList, .dict [("y".toList, .sc (.num "2".toList false))])]
+    exTmpl_distinct.1 exTmpl_distinct.2
+    (by intro e he
+        have : dget (stripKids (([("s".toList, AVal.dict [("a".toList, .dict [("x".toList, .sc (.num "1".toList false))])]),
+          ("s.a".toList, .dict [("y".toList, .sc (.num "2".toList false))])] : Dict).filter notGlobal) exTmpl) "d".toList = none := rfl
+        rw [this] at he; cases he)
+  have h2 := congrArg (fun r : Except AErr Attached => match r with
+    | .ok a => a.vars.map (fun pd : List Text × Dict => pd.2.length) | .error _ => []) h1
+  revert h2
+  decide
+
+/-- **whole-dataset round trip over the WHOLE DAS-safe domain, guards on the dataset itself** (strengthens
+    `C08_roundtrip_canon`, whose guard was a hypothesis on `canonDs ds`): lists of any length anywhere, the collision guard
+    `DsG ds` and distinct keys inside dict-valued attributes (`AttrsKeys`/`VarsKeys`: Python's dicts) — the client holds
+    exactly the normal form.  (`DsG` survives the normal form: `dsG_canon`; after it every list has two or more values.) -/
+theorem C08_roundtrip_canon_ds (ds : Dataset) (hok : DsOk ds) (hg : DsG ds) (ha : AttrsKeys ds.attrs)
+    (hv : VarsKeys ds.children) : roundTrip ds = some (.ok (expected (canonDs ds))) :=
+  C08_roundtrip_canon ds hok (guard_canon ds hg ha hv)
+
+-- non-vacuity: the witness of C08.short_list satisfies the guards on the dataset itself
+example : DsG wShort ∧ AttrsKeys wShort.attrs ∧ VarsKeys wShort.children :=
+  ⟨⟨⟨⟨by decide, rfl⟩, trivial⟩, by decide, by unfold NoDot; decide, (by intro e h; cases h), by decide⟩, trivial,
+   ⟨⟨trivial, trivial⟩, trivial⟩⟩
+
+/-! ### round 7b: flat AND nested containers mixed over a whole tree -/
+
+/-- **mixed style, whole tree, any parsed dict**: a variable below the top level may have a flat container `s.a { … }`, a
+    nested one `s { a { … } }`, both, or none — in any order, next to strangers and NC_GLOBAL/DODS_EXTRA anywhere.  With
+    `A0` = the parsed dict without the dict-valued NC_GLOBAL/DODS_EXTRA and `A1` = `A0` without the flat containers of the
+    variables below the top level: every variable holds its flat container (`flatI A0`: nothing for a top-level variable,
+    whose flat id IS its nested one) updated with the container its nested path spells in `A1` minus its children's
+    containers (`takenVars A1`), on a common name the nested one wins; what is left of `A1` at the top level becomes global.
+    Guards, exactly: sibling names distinct at every level; top-level names dot-free and id texts pairwise distinct
+    (`C08_flat_ids_distinct` gives the latter from dot-free names at every level); no leftover container named like the
+    dataset.  `C08_foreign_nested` is the case without flat containers, `C08_placement_both` the single visit. -/
+theorem C08_foreign_mixed (name : Text) (cs : List Var) (A : Dict)
+    (hd : VarsDistinct cs) (hn : (cs.map Var.name).Nodup) (hdot : ∀ v ∈ cs, '.' ∉ v.name)
+    (hids : ((visitIds cs).map dotted).Nodup)
+    (hself : ∀ e, dget (stripKids (popAll (A.filter notGlobal) (deepKeys (visitIds cs))) cs) name ≠ some (.dict e)) :
+    addAttributes name cs A = .ok (mixedExpected cs A) :=
+  mixed_attach name cs A hd hn hdot hids hself
+
+/-- **mixed style, no guard on the dataset's name** (the most general whole-tree statement about `add_attributes`): the
+    dataset node is visited last with its own name as id; a leftover CONTAINER named like the dataset is merged into the
+    dataset's attributes (`finalGlobals`), anything else named like it stays a global attribute.  Remaining hypotheses:
+    sibling names distinct, top-level names dot-free, id texts pairwise distinct — all three follow from distinct,
+    dot-free sibling names (`C08_flat_ids_distinct`), i.e. they hold for every dataset pydap can build. -/
+theorem C08_foreign_mixed_total (name : Text) (cs : List Var) (A : Dict)
+    (hd : VarsDistinct cs) (hn : (cs.map Var.name).Nodup) (hdot : ∀ v ∈ cs, '.' ∉ v.name)
+    (hids : ((visitIds cs).map dotted).Nodup) :
+    addAttributes name cs A = .ok
+      ⟨finalGlobals (mergeGlobals A []) (stripKids (popAll (A.filter notGlobal) (deepKeys (visitIds cs))) cs) name,
+       (mixedExpected cs A).vars⟩ :=
+  mixed_attach_total name cs A hd hn hdot hids
+
+-- a container named like the dataset `d` is merged into the globals; a plain entry named like it stays
+example : addAttributes "d".toList exTmpl [("d".toList, .dict [("t".toList, .sc (.str "x".toList))]), ("g".toList, .sc (.num "1".toList false))]
+    = .ok ⟨[("t".toList, .sc (.str "x".toList)), ("g".toList, .sc (.num "1".toList false))],
+           [(["b".toList], []), (["s".toList, "a".toList], []), (["s".toList], [])]⟩ :=
+  (C08_foreign_mixed_total _ _ _ exTmpl_distinct.1 exTmpl_distinct.2 (by decide) (by decide)).trans rfl
+
+/-- **mixed style, from the text** (parse + attach composed) -/
+theorem C08_foreign_mixed_text (name : Text) (cs : List Var) (kw w0 w1 : Text) (its : List FItem) (trail : Text)
+    (hkw : lower kw = "attributes".toList) (h0 : Ws w0) (h1 : Ws w1) (hok : FItemsOk its)
+    (hd : VarsDistinct cs) (hn : (cs.map Var.name).Nodup) (hdot : ∀ v ∈ cs, '.' ∉ v.name)
+    (hids : ((visitIds cs).map dotted).Nodup)
+    (hself : ∀ e, dget (stripKids (popAll ((denoteItems [] (eraseItems its)).filter notGlobal)
+      (deepKeys (visitIds cs))) cs) name ≠ some (.dict e)) :
+    (dasParse (ftext kw w0 w1 its trail)).toOption.map (addAttributes name cs)
+      = some (.ok (mixedExpected cs (denoteItems [] (eraseItems its)))) := by
+  rw [fparse kw w0 w1 its trail hkw h0 h1 hok]
+  simp [Except.toOption, mixed_attach name cs _ hd hn hdot hids hself]
+
+/-- **the mixed outcome, as lookups**: a variable listed with the container `t` its nested path takes holds its flat
+    container updated with `t`; which `t`: with a container under its name in the parent's container, that container minus
+    its children's containers (children looked up inside it), otherwise none for the whole subtree. -/
+theorem C08_mixed_lookup (I : List Text → Dict) (N : Dict) (cs : List Var) :
+    (∀ p t, (p, t) ∈ takenVars N cs → (p, optUpd (I p) t) ∈ applyI I (takenVars N cs))
+    ∧ (∀ v ∈ cs, ∀ E, dget N v.name = some (.dict E) →
+        ([v.name], some (stripKids E v.children)) ∈ takenVars N cs
+        ∧ ∀ q t, (q, t) ∈ takenVars E v.children → (v.name :: q, t) ∈ takenVars N cs)
+    ∧ (∀ v ∈ cs, (∀ E, dget N v.name ≠ some (.dict E)) →
+        ([v.name], none) ∈ takenVars N cs ∧ ∀ p ∈ walkVars [] v.children, (v.name :: p, none) ∈ takenVars N cs) :=
+  ⟨fun p t h => applyI_mem I _ p t h, fun v hv E h => taken_some N cs v hv E h, fun v hv h => taken_none N cs v hv h⟩
+
+-- non-vacuity: `s { a { x } }`, `s.a { y }`, `b { u }` on the tree `s {a}, b`: `s.a` holds y then x, `s` nothing, `b` u
+example : addAttributes "d".toList exTmpl exMixedA = .ok (mixedExpected exTmpl exMixedA) :=
+  C08_foreign_mixed _ _ _ exTmpl_distinct.1 exTmpl_distinct.2 (by decide) (by decide)
+    (by intro e he
+        have : dget (stripKids (popAll (exMixedA.filter notGlobal) (deepKeys (visitIds exTmpl))) exTmpl) "d".toList = none := rfl
+        rw [this] at he; cases he)
+example : mixedExpected exTmpl exMixedA =
+    ⟨[], [(["b".toList], [("u".toList, .sc (.num "1".toList false))]),
+          (["s".toList, "a".toList], [("y".toList, .sc (.num "2".toList false)), ("x".toList, .sc (.num "1".toList false))]),
+          (["s".toList], [])]⟩ := by rfl
 
 /-! ### the tie by translation: the *source text* of `type_convert` / `get_type` names the model's types
 
